@@ -314,6 +314,11 @@ pub trait Property {
     fn prepare(&self, _tier: Tier) -> Result<(), String> {
         Ok(())
     }
+    /// Replay the first violations twice in fresh processes and require identical signatures
+    /// (false for properties whose violations are non-deterministic by nature).
+    fn confirm_by_replay(&self) -> bool {
+        true
+    }
     /// wall budget in seconds for the whole check (None: run to completion)
     fn budget_s(&self, _tier: Tier) -> Option<u64> {
         None
@@ -689,7 +694,7 @@ pub fn orchestrate(prop: &dyn Property, tier: Tier) -> i32 {
     let dir = format!("/verif/replays/{id}");
     let _ = std::fs::create_dir_all(&dir);
     for (n, v) in unknown.iter().enumerate() {
-        if n < 2 && v.sig != "hang" && v.sig != "crash" {
+        if n < 2 && v.sig != "hang" && v.sig != "crash" && prop.confirm_by_replay() {
             let a = run_single(id, tier, v.idx);
             let b = run_single(id, tier, v.idx);
             match (a, b) {
